@@ -720,7 +720,7 @@ impl Linter {
                 // Scan for remaining files
                 for ext in sql_file_exts {
                     // is it a sql file?
-                    if fname.to_lowercase().ends_with(ext) {
+                    if fname.to_lowercase().ends_with(&ext.to_lowercase()) {
                         buffer.push(fpath.clone());
                     }
                 }
